@@ -1,6 +1,7 @@
 """C14 Runs end normally and stop exactly at the requested horizon or count."""
 from ..families import *
 from .. import universal
+from ..history import History, markers
 
 
 class Monitor(object):
@@ -83,7 +84,8 @@ class Monitor(object):
             tb = exc[2].strip().splitlines()
             where = next((l.strip().split(", in ")[-1] for l in reversed(tb) if l.strip().startswith("File")), "?")
             hub.violate("C14", "exception", {"type": exc[0], "where": where, "message": exc[1][:200],
-                                             "after_priority_preemption_of_blocked_customer": self.preempted_blocked})
+                                             "after_priority_preemption_of_blocked_customer": self.preempted_blocked,
+                                             "history": markers(hub)})
             return
         if status == "truncated" and self.entry[0] == "max_time" and hub.nevents >= hub.max_events:
             # finite arrival streams and a finite horizon: a run that is still executing events after the event bound
@@ -124,7 +126,7 @@ class Spec(object):
     ]
 
     def monitors(self, cfg):
-        return [Monitor(cfg["entry"])]
+        return [History(), Monitor(cfg["entry"])]
 
     def nontrivial(self, cfg, res):
         return "ran" in res.flags
